@@ -99,21 +99,25 @@ theorem dbg_isSome_iff (lower : Bytes → Bytes) (item : List (Bytes × Value)) 
           · have := ihr.2 ⟨y, hy, hd⟩
             cases hb : (evalOut lower item r).dbg <;> simp_all [Option.orElse]
 
-/-- **C16.** Unless the call ended in a recovered panic, `LastDebugErr()` is non-nil exactly when some comparison
-that was actually reached could not be decided. -/
-theorem C16_iff (lower : Bytes → Bytes) (item : List (Bytes × Value)) (t : Tree)
-    (hp : ∀ p, (evalOut lower item t).res ≠ .panic p) :
+/-- **C16.** `LastDebugErr()` is non-nil exactly when some comparison that was actually reached could not be decided –
+for every call, also one that ends in a recovered panic (with repair D10 `Process` keeps the diagnostic gathered before
+the panic; before it this needed the hypothesis "the call did not end in a recovered panic"). -/
+theorem C16_iff (lower : Bytes → Bytes) (item : List (Bytes × Value)) (t : Tree) :
     (processTree lower t item).debug.isSome = true ↔ ∃ l ∈ reached lower item t, undecidable lower item l := by
   rw [processTree_eq]
   have : (toProc (evalOut lower item t)).debug = (evalOut lower item t).dbg := by
     unfold toProc
-    cases hr : (evalOut lower item t).res with
-    | panic p => exact absurd hr (hp p)
-    | _ => rfl
+    cases hr : (evalOut lower item t).res <;> rfl
   rw [this, dbg_isSome_iff]
   constructor
   · rintro ⟨l, hl, hd⟩; exact ⟨l, hl, (C16_leaf lower item l).1 hd⟩
   · rintro ⟨l, hl, hu⟩; exact ⟨l, hl, (C16_leaf lower item l).2 hu⟩
+
+/-- non-vacuity of the panic case: `x eq 1 or s eq "a"` with `x` absent and `s` a Stringer whose `String()` panics –
+the call ends in a recovered panic and the diagnostic of the first comparison is still reported -/
+example : (processTree id (.logical "or" (.compare ["x"] 13 (.long false "1" none)) (.compare ["s"] 13 (.str "\"a\"")))
+    [(bytesOf "s", .stringer 7 .panics)]) = { verdict := false, err := some (.panic .stringer), debug := some .missing, calls := [7] } := by
+  decide +kernel
 
 theorem C16_decided_nil (lower : Bytes → Bytes) (item : List (Bytes × Value)) (t : Tree)
     (h : ∀ l ∈ reached lower item t, ¬ undecidable lower item l) :
